@@ -112,3 +112,98 @@ func TestBasic(t *testing.T) {
 		t.Fatal("cascade")
 	}
 }
+
+func mustExec(t *testing.T, db *DB, sql string, args ...any) *Result {
+	t.Helper()
+	r, _, err := db.Exec(sql, args)
+	if err != nil {
+		t.Fatalf("%s: %v", sql, err)
+	}
+	return r
+}
+
+func wantErr(t *testing.T, db *DB, class, sql string, args ...any) {
+	t.Helper()
+	_, _, err := db.Exec(sql, args)
+	if err == nil || err.Class != class {
+		t.Fatalf("%s: want %s error, got %v", sql, class, err)
+	}
+}
+
+// Referential actions: cascade closure first, then SET NULL, then the
+// no-action check - independent of the order in which constraints were added.
+func TestReferentialActions(t *testing.T) {
+	for _, order := range [][]string{
+		{"ALTER TABLE kids ADD FOREIGN KEY(a) REFERENCES parents ON DELETE CASCADE", "ALTER TABLE kids ADD FOREIGN KEY(b) REFERENCES parents"},
+		{"ALTER TABLE kids ADD FOREIGN KEY(b) REFERENCES parents", "ALTER TABLE kids ADD FOREIGN KEY(a) REFERENCES parents ON DELETE CASCADE"},
+	} {
+		db := NewDB()
+		if err := db.ExecScript(`CREATE TABLE parents (id serial PRIMARY KEY, n text NOT NULL);
+			CREATE TABLE kids (id serial PRIMARY KEY, a integer NOT NULL, b integer, c integer);
+			ALTER TABLE kids ADD FOREIGN KEY(c) REFERENCES parents ON DELETE SET NULL;` + order[0] + ";" + order[1] + ";"); err != nil {
+			t.Fatal(err)
+		}
+		mustExec(t, db, "INSERT INTO parents (n) VALUES ($1)", "p1")
+		mustExec(t, db, "INSERT INTO parents (n) VALUES ($1)", "p2")
+		// kid 1 references p1 twice (cascade + no action): goes with the cascade
+		mustExec(t, db, "INSERT INTO kids (a, b, c) VALUES (1, 1, 2)")
+		// kid 2 references p2 by cascade and p1 by set null
+		mustExec(t, db, "INSERT INTO kids (a, b, c) VALUES (2, NULL, 1)")
+		mustExec(t, db, "DELETE FROM parents WHERE id = $1", int64(1))
+		if db.RowCount("kids") != 1 {
+			t.Fatalf("kids: %d", db.RowCount("kids"))
+		}
+		r := mustExec(t, db, "SELECT c FROM kids WHERE id = 2")
+		if len(r.Rows) != 1 || r.Rows[0][0] != nil {
+			t.Fatalf("set null: %v", r.Rows)
+		}
+		// a surviving no-action reference refuses the delete and leaves everything as it was
+		mustExec(t, db, "INSERT INTO kids (a, b, c) VALUES (2, 2, NULL)")
+		mustExec(t, db, "INSERT INTO parents (n) VALUES ($1)", "p3")
+		mustExec(t, db, "UPDATE kids SET a = 3 WHERE id = 3")
+		wantErr(t, db, "constraint", "DELETE FROM parents WHERE id = 2")
+		if db.RowCount("parents") != 2 || db.RowCount("kids") != 2 {
+			t.Fatalf("refused delete changed something: %d %d", db.RowCount("parents"), db.RowCount("kids"))
+		}
+	}
+}
+
+func TestTypingAndAudit(t *testing.T) {
+	db := NewDB()
+	if err := db.ExecScript(`CREATE TABLE t (Id serial PRIMARY KEY, S smallint NOT NULL, R real NOT NULL, D date NOT NULL, T timestamp (0) with time zone NOT NULL, A text[], B bytea NOT NULL);`); err != nil {
+		t.Fatal(err)
+	}
+	wantErr(t, db, "type", "INSERT INTO t (s, r, d, t, b) VALUES ($1, 1, '2020-01-01', '2020-01-01T00:00:00Z', 'x')", int64(40000))
+	wantErr(t, db, "undefined", "SELECT nope FROM t")
+	wantErr(t, db, "undefined", "SELECT id FROM nope")
+	wantErr(t, db, "undefined", "SELECT id FROM t WHERE nofunc(id)")
+	wantErr(t, db, "params", "SELECT id FROM t WHERE id = $1 AND s = $3", int64(1), int64(2))
+	wantErr(t, db, "params", "SELECT id FROM t WHERE id = $1", int64(1), int64(2))
+	wantErr(t, db, "syntax", "SELEC id FROM t")
+	// quoted identifiers are exact, unquoted ones fold to lower case
+	wantErr(t, db, "undefined", `SELECT "Id" FROM t`)
+	mustExec(t, db, `SELECT "id", ID, Id FROM T`)
+	r := mustExec(t, db, "INSERT INTO t (s, r, d, t, a, b) VALUES ($1, $2, $3, $4, $5, $6) RETURNING r, d, t, a", int64(-32768), 0.1, "2021-05-06T23:59:59+02:00", "2021-05-06T23:59:59.6Z", `{"a,b",NULL,"NULL",""}`, []byte{0, 1})
+	if got := textOf(r.Rows[0][0], r.Types[0]); got != "0.1" {
+		t.Fatalf("real: %s", got)
+	}
+	if got := textOf(r.Rows[0][1], r.Types[1]); got != "2021-05-06" {
+		t.Fatalf("date: %s", got)
+	}
+	if got := textOf(r.Rows[0][2], r.Types[2]); got != "2021-05-07 00:00:00Z" {
+		t.Fatalf("timestamp(0) rounds: %s", got)
+	}
+	if got := textOf(r.Rows[0][3], r.Types[3]); got != `{"a,b",NULL,"NULL",""}` {
+		t.Fatalf("text[]: %s", got)
+	}
+	// a failing statement leaves no trace
+	wantErr(t, db, "constraint", "UPDATE t SET s = NULL")
+	if db.RowCount("t") != 1 {
+		t.Fatal("rows")
+	}
+	// 3-valued logic
+	r = mustExec(t, db, "SELECT id FROM t WHERE a IS NULL OR NOT (s = $1)", int64(5))
+	if len(r.Rows) != 1 {
+		t.Fatal("3vl")
+	}
+}
